@@ -391,6 +391,56 @@ theorem component_write_seen_in_field {s s' s'' : State K} (hi : Inv G s) {h c :
   · intro hw
     exact write_visible_through_alias hwf' ho' hoc (by omega) (by omega) hb.symm (by omega) v hw
 
+/-- an existing handle keeps its view through a whole history in which no operation re-links it -/
+theorem views_stable_run {s : State K} (hwf : WF s) {i : Nat} {o : Obj} (ho : s.objs[i]? = some o)
+    (ops : List (Op K)) (hu : ∀ op ∈ ops, ¬ moved op i) : (run G s ops).objs[i]? = some o := by
+  induction ops generalizing s with
+  | nil => exact ho
+  | cons op ops ih =>
+    rw [run_cons]
+    refine ih (wf_after hwf op) ?_ (fun op' h' => hu op' (List.mem_cons_of_mem _ h'))
+    unfold after
+    split
+    · rename_i s' h; exact views_stable hwf h ho (hu op List.mem_cons_self)
+    · exact ho
+
+/-- **component views, all histories**: a component view `vector[c]` / `tensor[i, j]` keeps
+looking at block `c` of the padded array of its field, and a marker written through one of the
+two is read through the other, after every history in which neither the field nor the
+component view is handed to a `FieldCollection(..., copy_fields=False)` (the hypothesis is
+necessary: see the example `component_detached_by_relinking` below - the constructor gives the
+field a new array and the component view keeps the old one). -/
+theorem component_alias_history {s s' s'' : State K} (hi : Inv G s) {h c : Nat}
+    (hs : step G s (.component h c) = .ok s') (ops : List (Op K))
+    (hu : ∀ op ∈ ops, ¬ moved op h ∧ ¬ moved op s.objs.length) :
+    ∃ (o oc : Obj) (n : Nat), (run G s' ops).objs[h]? = some o ∧
+      (run G s' ops).objs[s.objs.length]? = some oc ∧
+      oc.view = ⟨o.view.buf, o.view.off + c * n, n⟩ ∧ c * n + n ≤ o.view.len ∧
+      ∀ p, p < n → ∀ v : K,
+        (step G (run G s' ops) (.writeCell s.objs.length p v) = .ok s'' →
+          (s''.denote h)[c * n + p]? = some (some v)) ∧
+        (step G (run G s' ops) (.writeCell h (c * n + p) v) = .ok s'' →
+          (s''.denote s.objs.length)[p]? = some (some v)) := by
+  obtain ⟨o, gr, _, _, hc, hlen, ho', _, oc, hoc, _, hv⟩ := component_view hi hs
+  have hwf' := wf_step hi.wf hs
+  have h1 := views_stable_run (G := G) hwf' ho' ops (fun op hop => (hu op hop).1)
+  have h2 := views_stable_run (G := G) hwf' hoc ops (fun op hop => (hu op hop).2)
+  have hwf'' : WF (run G s' ops) := wf_run hwf' ops
+  have hblock : c * gr.mask.length + gr.mask.length ≤ o.view.len := by
+    rw [hlen]
+    have : (c + 1) * gr.mask.length ≤ o.ncomp * gr.mask.length := Nat.mul_le_mul_right _ hc
+    rw [Nat.succ_mul] at this; exact this
+  refine ⟨o, oc, gr.mask.length, h1, h2, hv, hblock, ?_⟩
+  intro p hp v
+  have hl : oc.view.len = gr.mask.length := by rw [hv]
+  have hb : oc.view.buf = o.view.buf := by rw [hv]
+  have hoff : oc.view.off = o.view.off + c * gr.mask.length := by rw [hv]
+  constructor
+  · intro hw
+    exact write_visible_through_alias hwf'' h2 h1 (by omega) (by omega) hb (by omega) v hw
+  · intro hw
+    exact write_visible_through_alias hwf'' h1 h2 (by omega) (by omega) hb.symm (by omega) v hw
+
 /-! ### fresh results -/
 
 /-- **copy_is_fresh** (allocation invariant: fresh ids exceed all live ids): every object created
@@ -405,14 +455,18 @@ theorem copy_is_fresh {s s' : State K} (hwf : WF s) {h : Nat} {dt : Option DType
   · exact f.elim
 
 /-- operations that return copies: everything except component views and
-`FieldCollection(..., copy_fields=False)` -/
+`FieldCollection(fields, copy_fields=False)` with pairwise different `fields` (identical fields
+force a copy, collection.py:92-95) -/
 def copying : Op K → Prop
   | .component _ _ => False
-  | .mkColl _ cp _ => cp = true
+  | .mkColl hs cp _ => cp = true ∨ ¬ hs.Nodup
   | _ => True
 
 theorem copying_spec {op : Op K} (hc : copying op) : ¬ subviewing op ∧ ∀ i, ¬ moved op i := by
   cases op <;> simp_all [copying, subviewing, moved]
+  rcases hc with h | h
+  · simp [h]
+  · intro _ _ hnd; exact absurd hnd h
 
 /-- results of copying operations do not share memory with anything that existed before -/
 theorem fresh_results {s s' : State K} {op : Op K} (hwf : WF s) (hs : step G s op = .ok s')
@@ -486,17 +540,20 @@ theorem copy_never_aliases {s s' : State K} (hwf : WF s) {h : Nat} {dt : Option 
 /-- **slice_append_arith_operator_results_fresh**: the same for collection slices, `append`,
 `FieldCollection(..., copy_fields=True)`, negation and binary arithmetic, freshly constructed
 fields (which is how operator results, `to_scalar`, ... are built), stored frames, fields
-read back from a storage, deep copies and unpickled objects. -/
+read back from a storage, deep copies and unpickled objects, and for the forced-copy path of the
+constructor (`copy_fields=False` but some of the fields are identical). -/
 theorem slice_append_arith_operator_results_fresh {s s' : State K} {op : Op K} (hwf : WF s)
     (hop : (∃ c idx, op = .slice c idx) ∨ (∃ c hs, op = .append c hs) ∨
       (∃ hs dt, op = .mkColl hs true dt) ∨ (∃ h, op = .neg h) ∨ (∃ o a b, op = .binop o a b) ∨
       (∃ c g dt x i, op = .mkField c g dt x i) ∨ (∃ h d, op = .storeFrame h d) ∨
-      (∃ t f, op = .loadFrame t f) ∨ (∃ h, op = .deepcopy h))
+      (∃ t f, op = .loadFrame t f) ∨ (∃ h, op = .deepcopy h) ∨
+      (∃ hs dt, op = .mkColl hs false dt ∧ ¬ hs.Nodup))
     (hs : step G s op = .ok s') {i j : Nat} (hi : s.objs.length ≤ i) (hi' : i < s'.objs.length)
     (hj : j < s.objs.length) (ops : List (Op K)) : aliases (run G s' ops) i j = false := by
   have hc : copying op := by
     rcases hop with ⟨_, _, rfl⟩ | ⟨_, _, rfl⟩ | ⟨_, _, rfl⟩ | ⟨_, rfl⟩ | ⟨_, _, _, rfl⟩ |
-      ⟨_, _, _, _, _, rfl⟩ | ⟨_, _, rfl⟩ | ⟨_, _, rfl⟩ | ⟨_, rfl⟩ <;> simp [copying]
+      ⟨_, _, _, _, _, rfl⟩ | ⟨_, _, rfl⟩ | ⟨_, _, rfl⟩ | ⟨_, rfl⟩ | ⟨_, _, rfl, hd⟩
+    all_goals first | exact Or.inr hd | simp [copying]
   have hl := (step_spec G hwf hs).1.len_le
   exact disjoint_forever (wf_step hwf hs) (by omega) hi' (by omega)
     (fresh_results hwf hs hc hi hi' hj).1 ops
@@ -658,5 +715,27 @@ example : aliases (run exGrid {} (exOps ++ [.deepcopy 2])) 8 10 = true ∧
 example : aliases (run exGrid {} (exOps.take 3 ++ [.mkColl [0] false none])) 0 2 = false ∧
     aliases (run exGrid {} (exOps.take 3 ++ [.mkColl [0] false none])) 0 3 = true := by
   decide +kernel
+
+/-- a vector field on a 1-d grid, its component view (handle 1), writes through both -/
+def exComp : List (Op Int) :=
+  [ .mkField .vector 0 none false (.valid [0, 1, 2, 0]),
+    .component 0 0,
+    .writeCell 1 1 5,
+    .inplace .add 0 (.num 10 0) ]
+
+/-- the hypotheses of `component_alias_history` are satisfiable (no operation of the history
+re-links the field or the view), and the conclusion is what the model computes -/
+example : ∀ op ∈ exComp.drop 2, ¬ moved op 0 ∧ ¬ moved op 1 := by
+  simp [exComp, moved]
+example : aliases (run exGrid {} exComp) 0 1 = true ∧
+    (run exGrid {} exComp).denote 1 = [none, some 15, some 12, none] := by decide +kernel
+/-- `component_detached_by_relinking`: the hypothesis of `component_alias_history` is necessary.
+`c = v[0]; FieldCollection([v])` gives `v` a new array (the collection's), `c` keeps the old one:
+afterwards the two share no memory and a write through `c` is not read through `v`.  This is what
+pde/fields/collection.py:123-126 does (known finding of C15, reported by the monitor). -/
+example : aliases (run exGrid {} (exComp.take 2)) 0 1 = true ∧
+    aliases (run exGrid {} (exComp.take 2 ++ [.mkColl [0] false none])) 0 1 = false ∧
+    (run exGrid {} (exComp.take 2 ++ [.mkColl [0] false none, .writeCell 1 1 5])).denote 0 =
+      [none, some 1, some 2, none] := by decide +kernel
 
 end PdeVerif.Heap
